@@ -603,6 +603,17 @@ pub fn build_common(rng: &mut Rng, ctx: &mut Ctx, host: &str) -> (RequestBuilder
             continue;
         }
         let value = random_header_value(rng);
+        if rng.chance(1, 6) {
+            // a ready-made HeaderValue marked `sensitive` (a hint for loggers and HPACK): on the
+            // wire it is the value, like any other
+            if let Ok(mut hv) = http::HeaderValue::from_bytes(&value) {
+                hv.set_sensitive(true);
+                rb = rb.header(http::header::HeaderName::from_bytes(name.as_bytes()).unwrap(), hv);
+                m.set(&name, &value);
+                ctx.count("header_values_marked_sensitive", 1);
+                continue;
+            }
+        }
         if rng.chance(2, 3) {
             rb = rb.header(http::header::HeaderName::from_bytes(name.as_bytes()).unwrap(), &value[..]);
             m.set(&name, &value);
